@@ -84,10 +84,7 @@ theorem C03_emitted_kind (n : T) (src file : Bytes) (es : List Ent) (h : emitAt 
     -- the list of outcomes is `.ok` element-wise
     have key : ∀ (ls : List NodeLit) (out : List Ent),
         seqOutcome (ls.map (fun l =>
-          match preimage l n src file with
-          | .ok p => Outcome.ok ({ kind := l.kind, ty := n.ty, sb := n.sb, eb := n.eb, line := n.sr + 1, pre := p } : Ent)
-          | .diag m => .diag m
-          | .panic m => .panic m)) = .ok out →
+          (preimage l n src file).mapOk (fun p => ({ kind := l.kind, ty := n.ty, sb := n.sb, eb := n.eb, line := n.sr + 1, pre := p } : Ent)))) = .ok out →
         ∀ e ∈ out, e.sb = n.sb ∧ e.eb = n.eb ∧ e.line = n.sr + 1 ∧ ∃ l ∈ ls, l.kind = e.kind := by
       intro ls
       induction ls with
@@ -101,10 +98,9 @@ theorem C03_emitted_kind (n : T) (src file : Bytes) (es : List Ent) (h : emitAt 
             · rename_i as has
               simp at ho; subst ho
               rcases List.mem_cons.1 he with rfl | hm
-              · split at ha
-                · simp at ha; subst ha; exact ⟨rfl, rfl, rfl, l, by simp, rfl⟩
-                · simp at ha
-                · simp at ha
+              · obtain ⟨p, _, hp⟩ := Outcome.mapOk_eq_ok ha
+                subst hp
+                exact ⟨rfl, rfl, rfl, l, by simp, rfl⟩
               · obtain ⟨h1, h2, h3, l', hl', hk⟩ := ih as has e hm
                 exact ⟨h1, h2, h3, l', by simp [hl'], hk⟩
             · simp at ho
@@ -136,7 +132,7 @@ theorem preimage_stmt (l : NodeLit) (p : String) (h : l.idFmt = [.lit p, .row, .
     (n : T) (src file : Bytes) :
     preimage l n src file = .ok (str p ++ decB (n.sr + 1) ++ [95] ++ decB (n.sc + 1) ++ [95] ++ file) := by
   have h95 : str "_" = [95] := by decide
-  simp [preimage, h, seqOutcome, atomBytes, atomFlat, h95]
+  simp [preimage, h, seqOutcome, atomBytes, atomFlat, h95, Outcome.mapOk]
 
 /-- **C03 (identity of statements)**: two occurrences of a statement kind have the same identity only if they
     start at the same row and column of the same file — distinct occurrences are never merged. -/
